@@ -99,6 +99,8 @@ class Unit:
         self.src_cache = {}
         self.props = []
         self.subst_checks = []
+        self.helpers = []
+        self.pending_helpers = []
 
     def emit(self, text, region=None):
         if not text.endswith('\n'):
@@ -240,6 +242,63 @@ def apply_sections(unit, text, d, fn_name, what):
             if onames != anames or rp.norm(obody) != rp.norm(am.group(2)):
                 raise AnchorError(f'{what}: annotated closure differs from the original closure {needle!r}')
             edits.append((idx, ('REPL', idx + len(needle), ann)))
+        elif nm == 'cut':
+            # R24: a run of whole statements is cut out of the verified text and becomes, verbatim, the body of an
+            # external_body helper fn with an ASSUMED spec (given in the section); the statements are replaced by one call.
+            #   cut "<text in first statement> ... <text in last statement>" {
+            #       helper: fn idiom_x(a: A, mut b: B) -> (r: R) ensures ...;
+            #       call: let result = idiom_x(result, char_skip);
+            #       ret: result
+            #   }
+            needle, occ = _occurrence(s['arg'])
+            if ' ... ' not in needle:
+                raise AnchorError(f'{what}: cut needs "<start> ... <end>"')
+            a_txt, b_txt = needle.split(' ... ', 1)
+            ia = _find_text(None, text[fh:fe], a_txt, None, what) + fh
+            ls = text.rfind('\n', 0, ia) + 1
+            if b_txt.strip() == '@ifelse':
+                # the whole `if .. { } else if .. { } else { }` statement that starts at the anchor
+                k = ia
+                while True:
+                    ob = m.find('{', k)
+                    if ob < 0 or ob >= fe:
+                        raise AnchorError(f'{what}: cut @ifelse: no block after {a_txt!r}')
+                    cb = rp.match_bracket(m, ob)
+                    rest_ = m[cb + 1:fe]
+                    me = re.match(r'\s*else\b', rest_)
+                    if me:
+                        k = cb + 1 + me.end()
+                        continue
+                    k = cb
+                    break
+            else:
+                ib = _find_text(None, text[fh:fe], b_txt, None, what) + fh
+                k, dd = ib, 0
+                while k < fe:
+                    c = m[k]
+                    if c in rp.OPEN:
+                        dd += 1
+                    elif c in rp.CLOSE:
+                        dd -= 1
+                        if dd < 0:
+                            break
+                    elif c == ';' and dd == 0:
+                        break
+                    k += 1
+                if k >= fe or m[k] != ';':
+                    raise AnchorError(f'{what}: cut: no statement end after {b_txt!r}')
+            block = text[ls:k + 1]
+            mh = re.search(r'helper:\s*(fn\s+(idiom_\w+).*?);\s*\n\s*call:\s*(.*?)\n\s*ret:\s*(.*)$', s['text'], re.S)
+            if not mh:
+                raise AnchorError(f'{what}: cut section needs helper:/call:/ret:')
+            sig, hname, call, ret = mh.group(1).strip(), mh.group(2), mh.group(3).strip(), mh.group(4).strip()
+            helper = f'#[verifier::external_body]\npub {sig}\n{{\n{block}\n    {ret}\n}}\n'
+            mi = re.search(r'^\s*in:\s*(impl[^\n]*)$', s['text'], re.M)
+            if mi:
+                helper = mi.group(1).strip() + ' {\n' + helper + '}\n'
+            unit.helpers.append(helper)
+            unit.rewrites.append(('R24', what + ' -> ' + hname, 1))
+            edits.append((ls, ('REPL', k + 1, call + '\n')))
         elif nm == 'subst':
             # replace an expression by a call of an `idiom_*` helper.  The helper must be an external_body fn of the
             # unit whose body is, textually, the replaced expression (checked in process() once the unit is complete).
@@ -373,13 +432,14 @@ def process(unit_name, tpl_path=None, out_dir=None):
             r6 = 'R6:trait' if (' for ' in a.get('impl', '')) else 'R6'
             text, log = rw.apply(text, [r6, 'R19'] + d['uses'], what)
             unit.rewrites += log
-            left = rw.unrouted_allocations(text)
+            left = rw.unrouted_allocations(text, [u.split(':', 1)[1] for u in d['uses'] if u.startswith('ALLOW:')])
             if left:
                 raise AnchorError(f'{what}: allocation site not routed through the C13 wrappers (use R17): {left[0]}')
             name = a['name']
             if 'rename' in a:
                 text = re.sub(r'\bfn\s+' + re.escape(name) + r'\b', 'fn ' + a['rename'], text, count=1)
                 name = a['rename']
+            unit.helpers = []
             text = apply_sections(unit, text, d, name, what)
             engine = 'verus'
             if 'assume' in a:
@@ -391,6 +451,8 @@ def process(unit_name, tpl_path=None, out_dir=None):
                 engine = 'assumed-in-verus:' + a['assume']
             unit.functions.append({'fn': what, 'file': a['file'], 'line': real_line, 'props': props,
                                    'engine': engine})
+            if unit.helpers:
+                unit.pending_helpers += unit.helpers
             unit.emit(text, {'kind': 'fn', 'fn': what, 'file': a['file'], 'real_line': real_line, 'props': props})
         elif k == 'item':
             src, m = unit.source(a['file'])
@@ -433,6 +495,13 @@ def process(unit_name, tpl_path=None, out_dir=None):
         else:
             raise AnchorError(f'unknown directive kind `{k}`')
     tail = tpl[pos:]
+    if unit.pending_helpers:
+        # cut-out helper fns go right before the end of the verus! block
+        marker = '} // verus!'
+        if marker not in tail:
+            raise AnchorError('unit template lacks the `} // verus!` end marker')
+        tail = tail.replace(marker, '// ---- R24 helpers: statement runs cut out of the verified text (bodies verbatim, specs assumed) ----\n'
+                            + '\n'.join(unit.pending_helpers) + '\n' + marker, 1)
     if tail:
         unit.emit(tail)
     full = ''.join(unit.out)
